@@ -11,7 +11,8 @@ EDIT_WEIGHTS = {n: 0 for n in ops.STRUCT_OPS}
 EDIT_WEIGHTS.update({"def.remove_child": 6, "def.remove_port": 3, "def.remove_cable": 3,
                      "port.remove_pin": 2, "cable.remove_wire": 2, "inst.reference=": 4,
                      "inst.del_reference": 1, "nl.top=": 2, "def.remove_children_from": 2,
-                     "lib.remove_definition": 1, "def.create_child": 2, "el.name=": 1})
+                     "lib.remove_definition": 1, "def.create_child": 2, "el.name=": 4, "cable.wires=": 2,
+                     "port.pins=": 2, "bundle.lower_index=": 2})
 
 FUNCS = ["get_hinstances", "get_hports", "get_hpins", "get_hcables", "get_hwires"]
 
@@ -34,11 +35,30 @@ def pre_transform(nl, kind, res):
             nl = nl.clone()
             U.MOD_NAME_UID = 0
             U.uniquify(nl)
+        elif kind == "flatten":
+            import spydrnet.flatten as F
+            # flatten's domain (C09): named instances and cables
+            k = 0
+            for L in nl.libraries:
+                for D in L.definitions:
+                    for x in list(D.children) + list(D.cables):
+                        if x.name is None:
+                            k += 1
+                            x.name = "auto%d" % k
+            if any("/" in x.name for L in nl.libraries for D in L.definitions
+                   for x in list(D.children) + list(D.cables)):
+                return nl
+            U.MOD_NAME_UID = 0
+            F.mod_name_uid = 0
+            F.unique_number = 0
+            U.uniquify(nl)
+            F.flatten(nl)
         else:
             return nl
         res.label("netlist-is-product-of-" + kind)
-    except Exception:  # noqa (C07/C08 decide the transforms)
+    except Exception:  # noqa (C07/C08/C09 decide the transforms)
         res.label("pre-transform-raised")
+        return None   # possibly half transformed: nothing to query
     return nl
 
 
@@ -63,7 +83,7 @@ class C11(Prop):
         big = tier == "thorough"
         return gen_ir.Cfg(unnamed=True, max_defs=8 if big else 7, max_children=5 if big else 4,
                           max_width=3, share=True, late=False, dense=True, top="always", noref_children=True,
-                          top_modes=["standalone", "definition", "child"], data=False)
+                          top_modes=["standalone", "definition", "child", "set_top_instance"], data=False)
 
     def strategy(self, tier):
         step = ops.op_strategy(EDIT_WEIGHTS)
@@ -71,7 +91,7 @@ class C11(Prop):
                                       "edits": st.lists(step, min_size=1, max_size=4),
                                       "sample": st.integers(0, 50),
                                       "pre": st.sampled_from(["none", "none", "none", "clone", "uniquify",
-                                                              "clone+uniquify"])})
+                                                              "clone+uniquify", "flatten"])})
 
     def fixed_cases(self, tier):
         return gen_ir.example_cases(tier, quick_limit=4000, thorough_limit=9000)
@@ -91,6 +111,8 @@ class C11(Prop):
             nl = gen_ir.build(case["design"]).netlist
             if nl.top_instance is not None and nl.top_instance.reference is not None:
                 nl = pre_transform(nl, case.get("pre", "none"), res)
+                if nl is None:
+                    return res
         M = HModel(nl)
         depth2 = Counter(id(p[-1]) for p in M.paths if len(p) >= 3)
         if any(v >= 2 for v in depth2.values()):
@@ -258,6 +280,15 @@ class C11(Prop):
                 continue
             if bool(got_valid) != want_valid:
                 res.violate("C11:after-edit:is_valid:%s:expected-%s" % (kind_of(seq), want_valid))
+            if want_valid:
+                try:
+                    nm = h.name
+                except Exception as e:  # noqa
+                    res.violate("C11:after-edit:name-raises:%s:%s" % (kind_of(seq), type(e).__name__), repr(e))
+                    continue
+                if nm != HModel.name_of(seq):
+                    res.violate("C11:after-edit:name:%s" % kind_of(seq), "%r, expected %r" % (
+                        nm, HModel.name_of(seq)))
             last = [x for x in seq if isinstance(x, sdn.Instance)][-1]
             want_unique = want_valid and occ2.get(id(last), 0) == 1
             if bool(got_unique) != want_unique:
